@@ -9,6 +9,7 @@ package ecmascript_test
 import (
 	"context"
 	"fmt"
+	"strings"
 	"testing"
 
 	"github.com/Comcast/sheens/core"
@@ -73,22 +74,47 @@ func runC12Shared(c *sim.Ctx, t *testing.T) {
 	// are at work.  Only that walker's results may differ from what it gets alone.
 	victim := -1
 	cancelAfter := 0
-	if c.Chance(1, 3, "cancelfault") {
+	inProgram := -1 // >=0: the cancellation lands while the victim is about to run a script for the (n+1)th time
+	if c.Chance(1, 2, "cancelfault") {
 		victim = c.Intn(nw, "victim")
 		cancelAfter = c.Intn(24, "cancelafter")
+		if c.Bool("cancelinprogram") {
+			inProgram = c.Intn(6, "cancelatprogram")
+		}
+		// the caller whose context is dead keeps working through a backlog: every execution
+		// it starts from now on has a watcher that fires at once, next to the other walkers
+		ws[victim].hist = append(ws[victim].hist, genHistory(c, 9)...)
 	}
+	skew := c.Bool("skew")
 	sim.Uninstall()
 	sim.Bubble(c, t, func(s *sim.Sched) {
 		s.MaxSteps = 8000
+		s.Skew = skew
 		if victim >= 0 {
 			vctx, cancel := context.WithCancel(context.Background())
 			ws[victim].ctx = vctx
-			s.Go("canceller", func(tk *sim.Task) {
-				for k := 0; k < cancelAfter; k++ {
-					sim.Yield("h#cancel-wait")
+			if inProgram >= 0 {
+				// placed by the simulator itself: the victim waits at the entry of RunProgram (its
+				// watcher is on duty, the script has not started), everybody else is at rest
+				name, seen, wasThere := fmt.Sprintf("w%d", victim), 0, false
+				s.OnStep = func() {
+					there := strings.Contains(s.ParkedAt(name), "RunProgram")
+					if there && !wasThere {
+						if seen == inProgram {
+							cancel()
+						}
+						seen++
+					}
+					wasThere = there
 				}
-				cancel()
-			})
+			} else {
+				s.Go("canceller", func(tk *sim.Task) {
+					for k := 0; k < cancelAfter; k++ {
+						sim.Yield("h#cancel-wait")
+					}
+					cancel()
+				})
+			}
 		}
 		for i, w := range ws {
 			w := w
